@@ -1215,12 +1215,17 @@ class Generator:
                 elif w.startswith("before ") or w.startswith("after "):
                     pos, _, anchor = w.partition(" ")
                     anchor = anchor.strip()
-                    m = re.match(r'"((?:[^"\\]|\\.)*)"(?:\s+opt)?$', anchor)
+                    m = re.match(r'"((?:[^"\\]|\\.)*)"(?:\s+#(\d+)of(\d+))?(?:\s+opt)?$', anchor)
                     if not m:
                         raise ExtractError(f"{iid}: bad anchor {anchor}")
                     optional = anchor.endswith(" opt")
                     a_s = m.group(1).replace('\\"', '"').replace("\\\\", "\\")
                     ms = [x for x in find_pattern(pieces, a_s) if x[3][x[0]] >= body_open]
+                    if m.group(2):
+                        # `#KofN`: the K-th of exactly N occurrences
+                        if len(ms) != int(m.group(3)):
+                            raise ExtractError(f"{iid}: lost anchor {a_s!r} (matches {len(ms)} times, expected {m.group(3)})")
+                        ms = [ms[int(m.group(2)) - 1]]
                     if len(ms) != 1:
                         if optional and not ms:
                             continue
